@@ -226,3 +226,114 @@ func ZZ_C19_Download() {
 	}
 	zz.Assert(len(served) <= 1, "download.at-most-one-file")
 }
+
+// ---------------------------------------------------------------- overlapping uploads
+
+// zzGatedBody: a request body whose first Read reports that the handler has
+// started to receive and then waits until it is allowed to go on.
+type zzGatedBody struct {
+	data    string
+	entered chan struct{}
+	gate    chan struct{}
+	started bool
+	done    bool
+}
+
+func (b *zzGatedBody) Read(p []byte) (int, error) {
+	if !b.started {
+		b.started = true
+		close(b.entered)
+		<-b.gate
+	}
+	if b.done {
+		return 0, io.EOF
+	}
+	b.done = true
+	return copy(p, b.data), nil
+}
+func (b *zzGatedBody) Close() error { return nil }
+
+// ZZ_C19_Overlap: a second upload of the same name arrives while the first is
+// still receiving its body: one of them fails, the stored capture is the
+// acknowledged one's, the name is queued once.
+func ZZ_C19_Overlap() {
+	zz.DeadlockIsViolation()
+	name := "x" + []string{".pcap", ".pcapng"}[zz.Choice("ext", 2)]
+	var handler http.Handler
+	imported := 0
+	var dir string
+	if zz.Symbolic() {
+		dir = filepath.Join(*baseDir, *pcapDir)
+		zzCaptureRoutes()
+		zz.Override("github.com/go-chi/chi/v5.URLParam", func(r *http.Request, key string) string { return name })
+		zz.Override("github.com/spq/pkappa2/internal/tools.AssertFolderRWXPermissions", func(a, b string) {})
+		zz.Override("(*github.com/spq/pkappa2/internal/index/manager.Manager).ImportPcaps", func(m *manager.Manager, f []string) { imported += len(f) })
+		setupRouter(nil, nil, nil)
+		h := zzHandlers["POST /upload/{filename:.+[.]pcap(ng)?}"]
+		zz.Assert(h != nil, "upload.route-registered")
+		handler = h
+	} else {
+		tmp := zz.TempDir()
+		*baseDir, *pcapDir = tmp, "pcaps"
+		dir = filepath.Join(tmp, "pcaps")
+		for _, d := range []string{"pcaps", "idx", "snap", "state", "conv"} {
+			os.MkdirAll(filepath.Join(tmp, d), 0o755)
+		}
+		mgr, err := manager.New(dir, filepath.Join(tmp, "idx"), filepath.Join(tmp, "snap"), filepath.Join(tmp, "state"), filepath.Join(tmp, "conv"), "")
+		if err != nil {
+			panic(err)
+		}
+		defer mgr.Close()
+		handler = setupRouter(mgr, nil, nil)
+	}
+	bodyA := &zzGatedBody{data: "AAAA", entered: make(chan struct{}), gate: make(chan struct{})}
+	wA := &zzRW{hdr: http.Header{}}
+	doneA := make(chan struct{})
+	go func() {
+		reqA := zzUploadRequest(name, bodyA)
+		handler.ServeHTTP(wA, reqA)
+		close(doneA)
+	}()
+	<-bodyA.entered // A has created its file and is receiving
+	wB := &zzRW{hdr: http.Header{}}
+	reqB := zzUploadRequest(name, io.NopCloser(strings.NewReader("BB")))
+	handler.ServeHTTP(wB, reqB)
+	close(bodyA.gate)
+	<-doneA
+	okA, okB := wA.status == 200 || wA.status == 0, wB.status == 200 || wB.status == 0
+	zz.Assert(!(okA && okB), "overlap.not-both-acknowledged")
+	stored, err := os.ReadFile(filepath.Join(dir, name))
+	if okA || okB {
+		zz.Assert(err == nil, "overlap.acknowledged-capture-is-stored")
+		want := "AAAA"
+		if okB && !okA {
+			want = "BB"
+		}
+		if okA && okB {
+			want = "BB" // B was acknowledged first: its capture must not be replaced
+		}
+		zz.Assert(string(stored) == want, "overlap.stored-capture-is-the-acknowledged-one")
+	}
+	if zz.Symbolic() {
+		n := 0
+		if okA {
+			n++
+		}
+		if okB {
+			n++
+		}
+		zz.Assert(imported == n && n <= 1, "overlap.queued-exactly-once")
+	}
+}
+
+func zzUploadRequest(name string, body io.ReadCloser) *http.Request {
+	if zz.Symbolic() {
+		return &http.Request{Method: "POST", Body: body} // the routed parameter comes from the URLParam stub
+	}
+	r, err := http.NewRequest("POST", "/upload/"+name, nil)
+	if err != nil {
+		panic(err)
+	}
+	r.Body = body
+	return r
+}
